@@ -249,6 +249,26 @@ def run(rep):
                     break
                 if info["ended"]:
                     break
+    # start(): the application thread stopped after every line while the new state machine thread runs
+    start_raised = {}
+    for refused in (True, False):
+        for k in range(0, 300):
+            verdict, info = assoc.run_start_sweep(k, refused)
+            nsweep += 1
+            rep.case(("start-sweep", refused, k))
+            if info.get("start_raised"):
+                start_raised[info["start_raised"]] = start_raised.get(info["start_raised"], 0) + 1
+            if verdict:
+                rep.violation(f"start() stopped after {k} steps while the state machine thread runs (connection {'refused' if refused else 'then closed by the peer'}): {verdict}",
+                              {"kind": "start-sweep", "k": k, "refused": refused})
+                break
+            if info["ended"]:
+                break
+    if start_raised:
+        rep.nonprop_differences += sum(start_raised.values())
+        rep.notes["start_raises_when_refused_early"] = {"counts": start_raised, "note": "Diameter.start() itself raises (AttributeError / ConnectionError) when the "
+                                                         "refusal is handled before start() reaches transport.run(): the node is Closed and released; "
+                                                         "not part of the statement"}
     rep.notes["preemption_sweep_executions"] = nsweep
     rep.assumptions += ["a local close() is issued while the connection is Open (before that the call only clears a flag that the capabilities exchange "
                         "sets again: the connection does not end, so the property does not apply)",
@@ -260,6 +280,8 @@ def replay(rep, path):
     nodemod.ensure_installed(0)
     if r["kind"] == "life":
         verdict, info = assoc.run_life(*r["args"])
+    elif r["kind"] == "start-sweep":
+        verdict, info = assoc.run_start_sweep(r["k"], r["refused"])
     else:
         verdict, info = assoc.run_life_sweep(r["victim"], r["k"], r["cause"])
     if verdict:
